@@ -299,7 +299,13 @@ func (cfg *Config) getCertDuringHandshake(ctx context.Context, hello *tls.Client
 	// strategy for obtaining certificate during handshake.
 	certLoadWaitChansMu.Lock()
 	wait, ok := certLoadWaitChans[name]
-	if ok {
+	if ok && ctx.Value(loadWaitChanCtxKey) == any(wait) {
+		// this very goroutine is the one loading the cert for this name: it has come back here
+		// (with loading disabled) after waiting for another goroutine's obtain or renewal to
+		// finish without a usable result. Waiting on our own channel would block us, and everyone
+		// waiting on us, until the timeout; the cleanup deferred by our outer call still applies.
+		certLoadWaitChansMu.Unlock()
+	} else if ok {
 		// another goroutine is already loading the cert; just wait and we'll get it from the in-memory cache
 		certLoadWaitChansMu.Unlock()
 
@@ -320,6 +326,9 @@ func (cfg *Config) getCertDuringHandshake(ctx context.Context, hello *tls.Client
 		wait = make(chan struct{})
 		certLoadWaitChans[name] = wait
 		certLoadWaitChansMu.Unlock()
+
+		// remember that it is us, in case we get back here while still loading
+		ctx = context.WithValue(ctx, loadWaitChanCtxKey, wait)
 
 		// unblock others and clean up when we're done
 		defer func() {
@@ -969,6 +978,12 @@ var (
 	certLoadWaitChans   = make(map[string]chan struct{})
 	certLoadWaitChansMu sync.Mutex
 )
+
+// loadWaitChanCtxKey is the context key under which a goroutine that has registered
+// itself in certLoadWaitChans keeps its own channel, so that it can recognize it.
+type loadWaitChanCtxKeyType struct{}
+
+var loadWaitChanCtxKey loadWaitChanCtxKeyType
 
 type serializableClientHello struct {
 	CipherSuites      []uint16
